@@ -294,10 +294,10 @@ def c11(ctx):
     res.rule = ("one case = one base file and all its damaged copies; distinct by MD5 of the base file; non-trivial if at least one damaged copy exercised fallback, rejection, truncation or a completely "
                 "persisted in-flight meta; evaluations = number of Open calls compared")
     with ctx:
-        if ctx.tier == "quick":
-            runs = run_sharded(ctx, "c11", 8, lambda i: ["-seed", str(ctx.seed * 100 + i), "-dir", "{dir}"] + (["-n", "1", "-full"] if i == 0 else ["-n", "6"]), 900)
+        if ctx.tier == "quick" or ctx.budget_s:
+            runs = run_sharded(ctx, "c11", 8, lambda i: ["-seed", str(ctx.seed * 100 + i), "-dir", "{dir}"] + (["-n", "1", "-full"] if i == 0 else (["-n", "5", "-huge"] if i == 1 else ["-n", "6"])), 900)
         else:
-            runs = run_sharded(ctx, "c11", 16, lambda i: ["-seed", str(ctx.seed * 100 + i), "-n", "5", "-dir", "{dir}", "-full"], ctx.budget_s or 3000)
+            runs = run_sharded(ctx, "c11", 16, lambda i: ["-seed", str(ctx.seed * 100 + i), "-n", "5", "-dir", "{dir}", "-full"] + (["-huge"] if i == 1 else []), ctx.budget_s or 3000)
         for r in runs:
             absorb(res, "C11", *r)
     return res
